@@ -557,6 +557,61 @@ Proof.
   - intros sl Hs. apply (i_f d s I) in Hs. unfold slot_get in *. cbn. exact Hs.
 Qed.
 
+(* v's reference moves to the variable r (which holds nothing) *)
+Lemma moveref_inv d s r v d1 o :
+  Inv d s -> is_owned (stat d r) = false -> r <> v -> drop_one d v SStale = Some d1 ->
+  lookup (venv s) v = Some o -> In (HVar v, o) (refs s) ->
+  Inv (set_stat d1 r (SOwned 0))
+      (mkSt ((HVar r, o) :: remove1 (HVar v, o) (refs s)) (freed s) (next s) ((r, o) :: venv s)).
+Proof.
+  intros I Nr Nrv Dr Lv Hi. pose proof (i_g d s I) as G.
+  pose proof (not_owned_count d s r I Nr) as Cr.
+  assert (Cnt : forall w, own_count (mkSt ((HVar r, o) :: remove1 (HVar v, o) (refs s)) (freed s) (next s) ((r, o) :: venv s)) w
+                          + (if Nat.eqb w v then 1 else 0) = own_count s w + (if Nat.eqb w r then 1 else 0)).
+  { intros w. unfold own_count. cbn [refs filter fst holder_eqb].
+    change (fun p : holder * obj => holder_eqb (fst p) (HVar w)) with (is_var w).
+    rewrite (Nat.eqb_sym r w).
+    assert (E : length (filter (is_var w) (remove1 (HVar v, o) (refs s))) + (if Nat.eqb w v then 1 else 0)
+                = length (filter (is_var w) (refs s))).
+    { destruct (Nat.eqb w v) eqn:Ew.
+      - assert (P : is_var w (HVar v, o) = true) by (unfold is_var; cbn; rewrite Nat.eqb_sym; exact Ew).
+        pose proof (filter_remove1_pos (is_var w) (HVar v, o) (refs s) P Hi) as H. rewrite Nat.add_1_r. exact H.
+      - rewrite Nat.add_0_r. apply (f_equal (@length ref)). apply filter_remove1_neg.
+        unfold is_var. cbn. rewrite Nat.eqb_sym. exact Ew. }
+    destruct (Nat.eqb w r); cbn [length].
+    - rewrite Nat.add_1_r. cbn [Nat.add]. f_equal. exact E.
+    - rewrite Nat.add_0_r. exact E. }
+  constructor.
+  - constructor; cbn.
+    + intros h x [H|H]; [inversion H; subst; eapply g_live; eauto | eapply g_live; eauto; eapply In_remove1; eauto].
+    + intros h x [H|H]; [inversion H; subst; eapply g_bound; eauto | eapply g_bound; eauto; eapply In_remove1; eauto].
+    + apply G.
+    + intros w x [H|H].
+      * inversion H; subst. rewrite Nat.eqb_refl. reflexivity.
+      * apply In_remove1 in H. destruct (Nat.eqb w r) eqn:E.
+        -- apply Nat.eqb_eq in E. subst w. exfalso. eapply count0_no_ref; eauto.
+        -- eapply g_var; eauto.
+    + intros x [H|H]; [inversion H | eapply g_noleak; eauto; eapply In_remove1; eauto].
+  - intros w. specialize (Cnt w). pose proof (i_v d s I w) as Hw. rewrite stat_set_stat.
+    destruct (Nat.eqb w r) eqn:Er.
+    + apply Nat.eqb_eq in Er. subst w. cbn [VI].
+      assert (Nat.eqb r v = false) by (apply Nat.eqb_neq; auto). rewrite H in Cnt. lia.
+    + unfold drop_one in Dr. destruct (stat d v) as [| |[|n]] eqn:Ev; try discriminate; inversion Dr; subst d1; clear Dr;
+        rewrite stat_set_stat; destruct (Nat.eqb w v) eqn:Ew.
+      * apply Nat.eqb_eq in Ew. subst w. rewrite Ev in Hw. cbn in Hw. cbn [VI]. lia.
+      * eapply VI_frame; eauto; [lia | cbn; rewrite Er; reflexivity |].
+        intros x Hx. exact (moved_has_ref s v o (HVar r) x Hx).
+      * apply Nat.eqb_eq in Ew. subst w. rewrite Ev in Hw. cbn in Hw. cbn [VI]. lia.
+      * eapply VI_frame; eauto; [lia | cbn; rewrite Er; reflexivity |].
+        intros x Hx. exact (moved_has_ref s v o (HVar r) x Hx).
+  - intros sl Hs. assert (Hs' : In sl (d_empty d)).
+    { unfold drop_one in Dr. destruct (stat d v) as [| |[|n]]; try discriminate; inversion Dr; subst; exact Hs. }
+    apply (i_e d s I) in Hs'. unfold slot_get in *. cbn. rewrite find_remove1_neg; auto.
+  - intros sl Hs. assert (Hs' : In sl (d_full d)).
+    { unfold drop_one in Dr. destruct (stat d v) as [| |[|n]]; try discriminate; inversion Dr; subst; exact Hs. }
+    apply (i_f d s I) in Hs'. unfold slot_get in *. cbn. rewrite find_remove1_neg; auto.
+Qed.
+
 Definition not_return (e : ev) : Prop := match e with EReturn _ => False | _ => True end.
 
 Lemma with_obj_ok s v o f : deref s v = inl (Some o) -> with_obj s v f = f o.
@@ -697,6 +752,15 @@ Proof.
     + constructor; try apply I. intros sl [Hs|Hs]; [subst; congruence | apply (i_f d s I); auto].
     + constructor; try apply I. intros sl [Hs|Hs]; [subst; auto | apply (i_e d s I); auto].
   - (* ECall *) discriminate.
+  - (* EMoveRef *)
+    destruct (negb (is_owned (stat d r)) && negb (Nat.eqb r v)) eqn:C; [|discriminate].
+    apply andb_true_iff in C. destruct C as [C1 C2]. apply negb_true_iff in C1, C2. apply Nat.eqb_neq in C2.
+    destruct (drop_one d v SStale) as [d1|] eqn:Dr; [|discriminate]. inversion Ds; subst d'. clear Ds.
+    assert (Ow : exists n, stat d v = SOwned n).
+    { unfold drop_one in Dr. destruct (stat d v); try discriminate. eauto. }
+    destruct Ow as [n Ow]. destruct (owned_ref d s v n I Ow) as [o [Lv [Hi _]]]. rewrite Lv.
+    pose proof Hi as Hh. apply has_In in Hh. rewrite Hh.
+    eapply moveref_inv; eauto.
   - (* EReturn *) destruct NR.
 Qed.
 
